@@ -44,7 +44,8 @@ def COMMENT(r):
 
 
 def ICOMMENT(r):
-    return r.choice(['c', '', 'x;y', 'a  b', 'ü "q'])
+    # (blanks at either end and a leading semicolon are part of the value)
+    return r.choice(['c', '', 'x;y', 'a  b', 'ü "q', 'ends with a blank ', ' starts with one', '  ', 'tab\t', ';marker', ';'])
 
 
 def KEY(r):
